@@ -323,7 +323,7 @@ pub fn random_tree(r: &mut crate::corpus::Rng, depth: u32, k: &mut u32) -> Tree 
 pub fn run(seed: u64, thorough: bool) -> (Out, Value) {
     let mut out = Out::default();
     let t0 = std::time::Instant::now();
-    let budget = std::time::Duration::from_secs(if thorough { 2400 } else { 160 });
+    let budget = std::time::Duration::from_secs(if thorough { 1200 } else { 160 });
     let mut shapes: Vec<Tree> = Vec::new();
     // interleave the exhaustive depth-2 trees with the polynomial family
     let d2 = depth2();
